@@ -221,7 +221,7 @@ def r14_3_4_shared(chk):
     meta = chk.ix.get_class("LRMeta")
     prop = meta.lookup("lr_type_struct")
     from ..terms import A as _A, contains as _contains
-    psum = chk.summary(prop)
+    psum = chk.terms.inline(prop, 2)    # (the conversion may sit in a helper of the metaclass)
     recv = ("param", prop.param_names[0])
     sts = [e for e in psum.effects if e.kind == "store_attr"]
     ok = bool(sts) and all(e.base == recv and _contains(e.value, _A(recv, "logical_record_type")) for e in sts)
